@@ -894,6 +894,12 @@ class CSSVariable(CSSFunction):
         # store: name of variable
         store = {'ident': None, 'fallback': None}
         ok, seq, store, unused = ProdParser().parse(cssText, 'CSSVariable', prods)
+        if ok and not store.get('ident'):
+            # input ended directly after "var("
+            ok = False
+            self._log.error(
+                'CSSVariable: No variable name found: %s' % self._valuestr(cssText)
+            )
         self.wellformed = ok
 
         if ok:
